@@ -155,8 +155,17 @@ def r3(ctx):
     eh = list(b.calls("turmoil_net::kernel::tcp::emit_handshake"))
     ctx.inst(R, "check_retx:abort-reaches-abort_timed_out", len(at) == 1, b.span, "abort list is drained into abort_timed_out" if at else "abort list is never acted upon")
     ctx.inst(R, "check_retx:resend-reaches-emit_handshake", len(eh) == 1, b.span, "resend list is drained into emit_handshake" if eh else "resend list is never acted upon")
-    # budget test: Ge(retx_attempts, max) true edge -> push abort
-    ctx.floor(R, 3)
+    # budget test: the abort push hangs on the true edge of Ge(retx_attempts, retx_max)
+    ge = []
+    for sbb, te, fe, o in guards_on(b, lambda o: o["k"] == "bin" and o["op"] in ("Ge", "Gt", "Le", "Lt", "Eq")):
+        a0 = Slicer(ctx.w).atoms(b, o["a"])
+        a1 = Slicer(ctx.w).atoms(b, o["b"])
+        if "field:" + T + "retx_attempts" in a0 and "field:turmoil_net::kernel::Kernel::retx_max" in a1:
+            ge.append((o["op"], te))
+    okb = len(ge) == 1 and ge[0][0] == "Ge"
+    ctx.inst(R, "check_retx:budget-test", okb, b.span, "a connection is aborted exactly when retx_attempts >= retx_max" if okb else
+             f"the retransmit budget test is not `retx_attempts >= retx_max` (found {[g[0] for g in ge]}): the connection is aborted one attempt early / late or never")
+    ctx.floor(R, 4)
 
 
 PARKERS = {"turmoil_net::kernel::tcp::poll_send": "register_write_waker", "turmoil_net::kernel::tcp::poll_recv": "register_read_waker",
